@@ -69,10 +69,16 @@ class Trace:
         return Fraction(self.units(v), self.scale)
 
 
+TIMEOUTS = 0     # per worker process: after three 20 s alarms every further count gets 2 s (a non-terminating
+                 # change would otherwise cost 20 s per count; 2 s is still ~1000x a normal count)
+
+
 def run(text, options, alarm=20, snapshots=True, count=True):
     """parse text, construct an Election with options (a dict; copied), count it.
     Never raises for failures of the code under test: the outcome is in .stage/.exc"""
-    global _SIDE
+    global _SIDE, TIMEOUTS
+    if TIMEOUTS >= 3:
+        alarm = min(alarm, 2)
     t = Trace()
     t.text = text
     t.options = dict(options)
@@ -101,6 +107,8 @@ def run(text, options, alarm=20, snapshots=True, count=True):
         t.stage = 'done'
     except CountTimeout as e:
         t.exc = e
+        if alarm >= 20:
+            TIMEOUTS += 1
     except Exception as e:     # pylint: disable=broad-except
         t.exc = e
     finally:
